@@ -27,7 +27,10 @@ Inductive case :=
        (fates : list (Z * Z))                     (* per visitor socket: 1 handed to the handler | 2 closed | 3 open, unserved *)
 | CGroup (members : Z) (reqs : list greq) (sched : list Z)
          (picks : list bool)                      (* how each select with closeCh and hand-off both ready resolved: true = hand-off *)
-         (fates : list (Z * Z)).                  (* per user socket: 10+m returned by member m's Accept | 2 closed | 3 open with no peer *)
+         (fates : list (Z * Z))                   (* per user socket: 10+m returned by member m's Accept | 2 closed | 3 open with no peer *)
+| CVh (reqs : list vhreq) (sched : list Z)
+      (picks : list Z)                            (* which waiting sender each successful Accept returned *)
+      (fates : list (Z * Z)).                     (* per user socket: 1 returned by Accept | 2 closed | 3 open with no peer *)
 
 Definition sched_of (l : list (Z * Z)) : list nat :=
   List.concat (map (fun p => repeat (Z.to_nat (fst p)) (Z.to_nat (snd p))) l).
@@ -105,6 +108,15 @@ Definition group_cfg (members : Z) (reqs : list greq) (picks : list bool) : gcfg
      gc_close_on_fail := h_code_closes_on_fail;
      gc_recheck_drops := negb (group_accepts_ok gen_group_accepts) |}.
 
+Definition vh_code (f : vhfate) : Z :=
+  match f with
+  | VhHandled => 1
+  | VhClosedNoRoute | VhClosedOnFail => 2
+  | VhPending => 3
+  | VhNew => 8
+  | VhNoConn => 9
+  end.
+
 Definition check_case (c : case) : Z :=
   match c with
   | CPool cpc smax reqs dead wf phases torn conns users starts flows =>
@@ -131,6 +143,11 @@ Definition check_case (c : case) : Z :=
                       (existsb (fun t => match is_thr s t with Some ILEnd => true | _ => false end)
                                (seq 0 (length reqs)))) then 42
       else 0
+  | CVh reqs sched picks fates =>
+      let cfg := {| vc_reqs := reqs; vc_pick := fun k => Z.to_nat (nth k picks (-1));
+                    vc_close_releases := gen_vhost_handoff_released_by_close |} in
+      let s := v_exec cfg (map Z.to_nat sched) in
+      if forallb (fun p => vh_code (vs_fate s (Z.to_nat (fst p))) =? snd p) fates then 0 else 71
   | CGroup members reqs sched picks fates =>
       let s := g_exec (group_cfg members reqs picks) (map Z.to_nat sched) in
       if forallb (fun p => group_code (gs_fate s (Z.to_nat (fst p))) =? snd p) fates then 0 else 61
@@ -168,6 +185,9 @@ Definition C11_holds (c : case) : Z :=
       if (1 <=? loop_ended) && existsb (fun p => snd p =? 3) fates then 51 else 0
   | CGroup _ _ _ _ fates =>
       if existsb (fun p => snd p =? 3) fates then 62 else 0
+  | CVh _ _ _ fates =>
+      (* every case ends after Close and after every handle goroutine had its turn: nobody may be left in the hand-off *)
+      if existsb (fun p => snd p =? 3) fates then 72 else 0
   end.
 
 Definition case_wfail (c : case) : bool := match c with CPool _ _ _ _ wf _ _ _ _ _ _ => 0 <=? wf | _ => false end.
